@@ -96,3 +96,25 @@ Theorem cw_num_free_blocks_is_irrelevant :
     /\ cw_find_overlapping_no_suffix_iter V A1 (encode_utf8 cs) = cw_find_overlapping_no_suffix_iter V A2 (encode_utf8 cs).
 Proof. exact cw_built_nfb_irrelevant. Qed.
 Print Assumptions cw_num_free_blocks_is_irrelevant.
+
+(* ... and for the leftmost kinds, both variants: the result is the specification whatever
+   num_free_blocks *)
+Theorem leftmost_num_free_blocks_is_irrelevant :
+  forall (V : Type) (veqb : V -> V -> bool), (forall a b, veqb a b = true <-> a = b) ->
+  forall nfb1 nfb2 (pvs : list (list N * V)), 4 * total_len V pvs <= U32_MAX - 1 ->
+    (forall (A1 A2 : bw_automaton V) k, k <> Standard -> (forall p v, In (p, v) pvs -> Forall (fun b => b < 256) p) ->
+       bw_build_with_values V k nfb1 pvs = Ok A1 -> bw_build_with_values V k nfb2 pvs = Ok A2 ->
+       forall h, Forall (fun b => b < 256) h -> bw_leftmost_find_iter V A1 h = bw_leftmost_find_iter V A2 h)
+    /\ (forall (A1 A2 : cw_automaton V) k, k <> Standard ->
+       cw_build_with_values V k nfb1 pvs = Ok A1 -> cw_build_with_values V k nfb2 pvs = Ok A2 ->
+       forall cs, Forall scalar cs -> cw_leftmost_find_iter V A1 (encode_utf8 cs) = cw_leftmost_find_iter V A2 (encode_utf8 cs)).
+Proof.
+  intros V veqb Hv nfb1 nfb2 pvs Hs. split.
+  - intros A1 A2 k Hk Hb H1 H2 h Hh. destruct k; [congruence| |].
+    + rewrite (bw_built_lml V veqb Hv nfb1 pvs A1 Hb Hs H1 h Hh), (bw_built_lml V veqb Hv nfb2 pvs A2 Hb Hs H2 h Hh). reflexivity.
+    + rewrite (bw_built_lmf V veqb Hv nfb1 pvs A1 Hb Hs H1 h Hh), (bw_built_lmf V veqb Hv nfb2 pvs A2 Hb Hs H2 h Hh). reflexivity.
+  - intros A1 A2 k Hk H1 H2 cs Hc. destruct k; [congruence| |].
+    + rewrite (cw_built_lml V veqb Hv nfb1 pvs A1 Hs H1 cs Hc), (cw_built_lml V veqb Hv nfb2 pvs A2 Hs H2 cs Hc). reflexivity.
+    + rewrite (cw_built_lmf V veqb Hv nfb1 pvs A1 Hs H1 cs Hc), (cw_built_lmf V veqb Hv nfb2 pvs A2 Hs H2 cs Hc). reflexivity.
+Qed.
+Print Assumptions leftmost_num_free_blocks_is_irrelevant.
